@@ -270,47 +270,86 @@ def rule_u(F):
     from cao.facts import DefUse, op_place, rvalue_operands
     res = []
     n = 0
-    for f in F.fns:
-        if not f.mir:
-            continue
-        srcs = [t["dest"]["l"] for bi, t in mu.calls(f) if any(n_ == "compiler::super_depth" for n_ in callee_names(t["func"]))]
-        if not srcs:
-            continue
-        du = DefUse(f)
+    # the functions that count the `super.` components of an import: compiler functions whose text mentions the literal
+    # "super" / "super." and that hand an integer (or something holding one) back - whatever they are called
+    from cao.facts import hir_walk
+    counters = set()
+    for g in F.fns:
+        if g.hir and not g.is_closure and g.path.startswith("compiler") and \
+                any(x.get("k") == "lit" and isinstance(x["lit"].get("v"), str) and x["lit"]["v"].rstrip(".") == "super" for x in hir_walk(g.hir["body"])):
+            ret = str((g.raw.get("sig") or {}).get("output", "")) if isinstance(g.raw.get("sig"), dict) else str(g.raw.get("sig", ""))
+            if "usize" in ret or "u32" in ret or "Import" in ret or "(" in ret:
+                counters.add(g.short)
+    # a named constant holding the literal counts as well (`const SUPER_PREFIX: &str = "super."`)
+    super_consts = set(g.short for g in F.fns if g.hir and "Const" in str(g.raw.get("def_kind", "")) and
+                       any(x.get("k") == "lit" and isinstance(x["lit"].get("v"), str) and x["lit"]["v"].rstrip(".") == "super" for x in hir_walk(g.hir["body"])))
+    for g in F.fns:
+        if g.hir and not g.is_closure and g.path.startswith("compiler") and g.mir and \
+                any(x.get("k") == "path" and short(str(x["path"]["res"].get("path", ""))) in super_consts for x in hir_walk(g.hir["body"])):
+            counters.add(g.short)
+    if not counters:
+        from cao.facts import AnchorMissing
+        raise AnchorMissing("the function that counts the `super.` components of an import (compiler module)")
+    tainted_params = {}
+    results = {}
+    for _round in range(4):
+        changed = False
+        for f in F.fns:
+            if not f.mir or f.short in counters or not f.path.startswith("compiler"):
+                continue
+            srcs = [t["dest"]["l"] for bi, t in mu.calls(f) if any(n_ in counters for n_ in callee_names(t["func"]))]
+            srcs += sorted(tainted_params.get(f.short, ()))
+            if not srcs:
+                continue
+            du = DefUse(f)
 
-        def from_src(op):
-            p = op_place(op)
-            seen = set()
-            work = [p["l"]] if p is not None else []
-            while work:
-                l = work.pop()
-                if l in seen:
-                    continue
-                seen.add(l)
-                if l in srcs:
-                    return True
-                for d in du.defs.get(l, []):
-                    if d[3].get("place", d[3].get("dest"))["p"]:
+            def from_src(op, srcs=srcs, du=du):
+                p = op_place(op)
+                seen = set()
+                work = [p["l"]] if p is not None else []
+                while work:
+                    l = work.pop()
+                    if l in seen:
                         continue
-                    if d[2] == "assign":
-                        for o in rvalue_operands(d[3]["rv"]):
-                            q = op_place(o)
-                            if q is not None:
-                                work.append(q["l"])
-                        if d[3]["rv"]["k"] in ("ref",):
-                            work.append(d[3]["rv"]["place"]["l"])
-            return False
-        owner = (f.root or f.short).rsplit("::", 1)[-1]
-        plain = []
-        checked = 0
-        for bi, b in enumerate(f.blocks):
-            for st in b["stmts"]:
-                if st["k"] == "assign" and st["rv"]["k"] == "bin" and st["rv"]["op"] in ("Sub", "SubWithOverflow", "SubUnchecked") and from_src(st["rv"]["r"]):
-                    plain.append(st.get("ln"))
-            t = b["term"]
-            if t["k"] == "call" and any(n_.rsplit("::", 1)[-1] in ("checked_sub", "saturating_sub") for n_ in callee_names(t["func"])) \
-                    and len(t["args"]) > 1 and from_src(t["args"][1]):
-                checked += 1
+                    seen.add(l)
+                    if l in srcs:
+                        return True
+                    for d in du.defs.get(l, []):
+                        if d[3].get("place", d[3].get("dest"))["p"]:
+                            continue
+                        if d[2] == "assign":
+                            for o in rvalue_operands(d[3]["rv"]):
+                                q = op_place(o)
+                                if q is not None:
+                                    work.append(q["l"])
+                            if d[3]["rv"]["k"] in ("ref",):
+                                work.append(d[3]["rv"]["place"]["l"])
+                return False
+            owner = (f.root or f.short).rsplit("::", 1)[-1]
+            plain = []
+            checked = 0
+            for bi, b in enumerate(f.blocks):
+                for st in b["stmts"]:
+                    if st["k"] == "assign" and st["rv"]["k"] == "bin" and st["rv"]["op"] in ("Sub", "SubWithOverflow", "SubUnchecked") and from_src(st["rv"]["r"]):
+                        plain.append(st.get("ln"))
+                t = b["term"]
+                if t["k"] != "call":
+                    continue
+                nm = callee_names(t["func"])
+                if any(n_.rsplit("::", 1)[-1] in ("checked_sub", "saturating_sub") for n_ in nm) and len(t["args"]) > 1 and from_src(t["args"][1]):
+                    checked += 1
+                # the count handed on to another compiler function: its parameter carries it
+                for n_ in nm:
+                    g = F.fn(n_, required=False) if n_.startswith("compiler") else None
+                    if g is not None and g.mir and g.short not in counters:
+                        for i, a in enumerate(t["args"]):
+                            if from_src(a) and (i + 1) not in tainted_params.setdefault(g.short, set()):
+                                tainted_params[g.short].add(i + 1)
+                                changed = True
+            results[f.short] = (f, owner, plain, checked)
+        if not changed:
+            break
+    for _k, (f, owner, plain, checked) in sorted(results.items()):
         n += 1
         key = "C04/U/%s/super-depth-subtracted-checked" % owner
         if plain:
@@ -332,6 +371,43 @@ INDEX_OK = {
     ("instr_set_var", "Vec::index_mut"): "global_vars was resized to id + 1 on the line before",
     ("register_upvalue", "Vec::index"): "index into the enclosing closure's upvalues, an operand the compiler took from add_upvalue (C10.U / C06.W)",
 }
+
+
+CONTAINER_OK = {
+    # (last field of the indexed place, kind of indexing) -> why the index is in range wherever this is done
+    ("upvalues", "Vec::index"): "index into the enclosing closure's upvalues, an operand the compiler took from add_upvalue (C10.U / C06.W)",
+    ("bytecode", "slice::index"): "bytecode slice at an operand the compiler wrote (C10.W: operand widths agree)",
+    ("data", "slice::index"): "data section at a handle the compiler wrote (C10.S: complete length-prefixed strings)",
+}
+
+
+def _indexed_container(f, t):
+    """name of the field the indexed container was read from (through borrows, derefs and as_slice-like calls), or None"""
+    from cao.facts import DefUse
+    if t["k"] != "call" or not t["args"]:
+        return None
+    du = DefUse(f)
+    l = op_local(t["args"][0])
+    for _ in range(10):
+        if l is None:
+            return None
+        d = du.sole_def(l)
+        if d is None:
+            return None
+        if d[2] == "assign":
+            rv = d[3]["rv"]
+            pl = rv.get("place") or (op_place(rv["op"]) if rv.get("op") else None)
+            if pl is None:
+                return None
+            names = [e["name"] for e in pl["p"] if e["k"] == "field"]
+            if names:
+                return names[-1]
+            l = pl["l"]
+        elif d[2] == "call" and d[3]["args"]:
+            l = op_local(d[3]["args"][0])
+        else:
+            return None
+    return None
 
 
 def rule_i(F):
@@ -363,6 +439,9 @@ def rule_i(F):
             cnt[what] = k + 1
             key = "C04/I/%s/%s%s" % (fname, what, "" if k == 0 else "#%d" % k)
             why = INDEX_OK.get((fname, what)) if k == 0 else None
+            if why is None:
+                # the same justification wherever the handler code lives: it is a fact about WHAT is indexed
+                why = CONTAINER_OK.get((_indexed_container(f, t), what))
             n += 1
             if why:
                 res.append(ok("C04.I", key, f.loc(ln), "in range: " + why))
